@@ -74,31 +74,41 @@ def six(ip, port):
     return bytes(u32(ip) + u16(port))
 
 
-def body(fn, p):
-    """the octets after the four header octets"""
+def fields(fn, p):
+    """the octets after the four header octets, as a list of (field name, octets)"""
     if fn == RESULT:
-        return bytes(u16(p['code']))
+        return [('result-code', bytes(u16(p['code'])))]
     if fn in HAS_BDT:
-        out = b''
-        for addr, mask in p['bdt']:
-            out = out + bytes(addr) + bytes(u32(mask))
+        out = []
+        for i, (addr, mask) in enumerate(p['bdt']):
+            out.append(('bdt[%d].address' % i, bytes(addr)))
+            out.append(('bdt[%d].mask' % i, bytes(u32(mask))))
         return out
     if fn in (READ_BDT, READ_FDT):
-        return b''
+        return []
     if fn == FORWARDED_NPDU:
-        return bytes(p['addr']) + bytes(p['npdu'])
+        return [('address', bytes(p['addr'])), ('npdu', bytes(p['npdu']))]
     if fn == REGISTER_FD:
-        return bytes(u16(p['ttl']))
+        return [('ttl', bytes(u16(p['ttl'])))]
     if fn == READ_FDT_ACK:
-        out = b''
-        for addr, ttl, remain in p['fdt']:
-            out = out + bytes(addr) + bytes(u16(ttl)) + bytes(u16(remain))
+        out = []
+        for i, (addr, ttl, remain) in enumerate(p['fdt']):
+            out.append(('fdt[%d].address' % i, bytes(addr)))
+            out.append(('fdt[%d].ttl' % i, bytes(u16(ttl))))
+            out.append(('fdt[%d].remaining' % i, bytes(u16(remain))))
         return out
     if fn == DELETE_FDT_ENTRY:
-        return bytes(p['addr'])
+        return [('address', bytes(p['addr']))]
     if fn in (DISTRIBUTE_BROADCAST, ORIGINAL_UNICAST, ORIGINAL_BROADCAST):
-        return bytes(p['npdu'])
+        return [('npdu', bytes(p['npdu']))]
     raise AssertionError(fn)
+
+
+def body(fn, p):
+    out = b''
+    for _, seg in fields(fn, p):
+        out = out + seg
+    return out
 
 
 def frame(fn, p):
